@@ -89,6 +89,12 @@ def run_c16(tier, seed, replay):
                     probe = "EF " + m["vars"][0]
                 jobs.append({"id": "%s-%d" % (m["id"], j), "kinds": ["c16"], "model": fm[fmt], "format": fmt, "k": k,
                              "sets": sets, "formulae": formulae, "probe": probe})
+    if not replay:
+        # large sets (tens of thousands of BDD nodes, entries of hundreds of kilobytes) on a 24-variable ring
+        for j in range(3 if tier == "thorough" else 1):
+            jobs.append({"id": "big-%d" % j, "kinds": ["c16"], "big": True, "ring": 24, "k": 1,
+                         "sets": {"big": {"height": 9 + j % 2, "seed": rng.randrange(1 << 30)}, "small": {"height": 3, "seed": rng.randrange(1 << 30)}},
+                         "formulae": ["%big% & ~%small%", "EF %small%"], "probe": "%big% & (~%small%)"})
     jp = os.path.join(wd, "jobs.json")
     with open(jp, "w") as f:
         json.dump(jobs, f)
@@ -99,8 +105,9 @@ def run_c16(tier, seed, replay):
     verdicts, stats = common.judge_events("Trace_Arch.tla", "Trace_Arch.cfg", docs, wd)
     byid = {e["id"]: e for e in events}
     import runner
-    samples = [{"format": e["format"], "k": e["k"], "labels": sorted(e.get("written", {})), "entries": e.get("back", {}).get("entries"),
+    samples = [{"format": e.get("format"), "k": e["k"], "labels": sorted(e.get("written", {})), "entries": e.get("back", {}).get("entries"),
                 "formulae": e["formulae"]} for e in events[:3]]
+    samples += [{"big": True, "bdd_nodes": e.get("bdd_nodes"), "archive_bytes": e.get("archive_bytes")} for e in events if e.get("big")][:1]
     return runner.report("C16", tier, seed, t0, jobs, verdicts, ["c16"], stats,
                          {"samples": samples, "rule": "seeded label->set maps (empty, unit, beyond the unit set, random, results of formulae) on networks given as aeon / bnet / sbml, k = 0..2; written with build_result_archive, entry list read from the zip directory, model re-parsed, graph rebuilt, load_bdd_bundle; explicit sets before/after and a wild-card probe judged equal by TLC (spec/Trace_Arch.tla)"},
                          ASSUME_CLI, lambda it, failed: {"property": "C16", "failed_judgements": failed, "jobs": [it], "recorded": byid[it["id"]]})
